@@ -128,7 +128,17 @@ fn replay(case: &J) -> J {
         } else {
             vsecs = secs.clone();
             let v = vsecs.entry(tsec.clone()).or_default();
-            v.extend_from_slice(tail);
+            match case["tails"]["at"].as_u64() {
+                // sweep: the variant bytes overwrite the section at a fixed position
+                Some(at) => {
+                    for (i, b) in tail.iter().enumerate() {
+                        if at as usize + i < v.len() {
+                            v[at as usize + i] = *b;
+                        }
+                    }
+                }
+                None => v.extend_from_slice(tail),
+            }
             // length fields of the enclosing container: value = add + len(tail)
             if let Some(ps) = case["tails"]["patch"].as_array() {
                 for p in ps {
